@@ -1241,4 +1241,466 @@ theorem tbl_pooled_count (enumOrder : Option (List String)) (nBins : Nat) (featu
     rw [List.take_append_drop k l]
   rw [h1, h2, List.nil_append, List.length_drop]
 
+variable {K : Type} [Field K] [LinearOrder K] [IsStrictOrderedRing K]
+
+/-! ### 7. group-by: `distinctKeys`, partition of the rows -/
+
+theorem tbl_distinctKeys_foldl {α : Type} [BEq α] [LawfulBEq α] (keys acc : List α) (hacc : acc.Nodup) :
+    (keys.foldl (fun acc k => if acc.contains k then acc else acc ++ [k]) acc).Nodup ∧
+    ∀ k, k ∈ keys.foldl (fun acc k => if acc.contains k then acc else acc ++ [k]) acc ↔
+      k ∈ acc ∨ k ∈ keys := by
+  induction keys generalizing acc with
+  | nil => simp [hacc]
+  | cons x t ih =>
+    simp only [List.foldl_cons]
+    by_cases hx : acc.contains x = true
+    · rw [if_pos hx]
+      obtain ⟨h1, h2⟩ := ih acc hacc
+      refine ⟨h1, fun k => ?_⟩
+      rw [h2 k]
+      have hx' : x ∈ acc := List.contains_iff_mem.1 hx
+      constructor
+      · rintro (h | h)
+        · exact Or.inl h
+        · exact Or.inr (List.mem_cons_of_mem _ h)
+      · rintro (h | h)
+        · exact Or.inl h
+        · rcases List.mem_cons.1 h with h | h
+          · left; rw [h]; exact hx'
+          · exact Or.inr h
+    · rw [if_neg hx]
+      have hx' : x ∉ acc := fun h => hx (List.contains_iff_mem.2 h)
+      have hnd : (acc ++ [x]).Nodup := by
+        rw [List.nodup_append]
+        refine ⟨hacc, List.nodup_singleton x, ?_⟩
+        intro a ha b hb
+        rw [List.mem_singleton] at hb
+        rintro rfl
+        exact hx' (hb ▸ ha)
+      obtain ⟨h1, h2⟩ := ih (acc ++ [x]) hnd
+      refine ⟨h1, fun k => ?_⟩
+      rw [h2 k]
+      simp only [List.mem_append, List.mem_cons, List.mem_nil_iff, or_false]
+      tauto
+
+theorem tbl_distinctKeys_nodup {α : Type} [BEq α] [LawfulBEq α] (keys : List α) :
+    (distinctKeys keys).Nodup :=
+  (tbl_distinctKeys_foldl keys [] List.nodup_nil).1
+
+theorem tbl_mem_distinctKeys {α : Type} [BEq α] [LawfulBEq α] (keys : List α) (k : α) :
+    k ∈ distinctKeys keys ↔ k ∈ keys := by
+  have h : k ∈ distinctKeys keys ↔ k ∈ [] ∨ k ∈ keys :=
+    (tbl_distinctKeys_foldl keys [] List.nodup_nil).2 k
+  rw [h]; simp
+
+theorem tbl_sum_ite_eq {α M : Type} [BEq α] [LawfulBEq α] [AddCommMonoid M] (ds : List α)
+    (hnd : ds.Nodup) (a : α) (ha : a ∈ ds) (x : M) :
+    (ds.map (fun k => if a == k then x else 0)).sum = x := by
+  induction ds with
+  | nil => simp at ha
+  | cons d t ih =>
+    rw [List.map_cons, List.sum_cons]
+    have hnd' := List.nodup_cons.1 hnd
+    by_cases had : a = d
+    · subst had
+      have : (t.map (fun k => if a == k then x else 0)) = t.map (fun _ => (0 : M)) := by
+        apply List.map_congr_left
+        intro k hk
+        have : a ≠ k := fun h => hnd'.1 (h ▸ hk)
+        simp [this]
+      rw [this]
+      simp
+    · have hat : a ∈ t := by
+        rcases List.mem_cons.1 ha with h | h
+        · exact absurd h had
+        · exact h
+      rw [ih hnd'.2 hat]
+      simp [had]
+
+/-- the groups partition the rows: summing a row function group by group gives the total -/
+theorem tbl_partition_sum {α ι M : Type} [BEq α] [LawfulBEq α] [AddCommMonoid M]
+    (key : ι → α) (g : ι → M) (ds : List α) (hnd : ds.Nodup) (l : List ι)
+    (hmem : ∀ i ∈ l, key i ∈ ds) :
+    (ds.map (fun k => ((l.filter (fun i => key i == k)).map g).sum)).sum = (l.map g).sum := by
+  induction l with
+  | nil => simp
+  | cons i t ih =>
+    have hstep : ∀ k, (((i :: t).filter (fun i => key i == k)).map g).sum =
+        (if key i == k then g i else 0) + ((t.filter (fun i => key i == k)).map g).sum := by
+      intro k
+      rw [List.filter_cons]
+      by_cases h : (key i == k) = true
+      · simp [h]
+      · simp [h]
+    simp only [hstep]
+    rw [List.sum_map_add, tbl_sum_ite_eq ds hnd (key i) (hmem i (by simp)) (g i),
+      ih (fun j hj => hmem j (List.mem_cons_of_mem _ hj))]
+    simp
+
+theorem tbl_length_eq_sum {ι : Type} (l : List ι) : l.length = (l.map (fun _ => 1)).sum := by
+  induction l with
+  | nil => rfl
+  | cons a t ih => simp only [List.length_cons, List.map_cons, List.sum_cons]; omega
+
+/-- the member indices of group `k` -/
+def tbl_idx {α : Type} [BEq α] (keys : List α) (k : α) : List Nat :=
+  (List.range keys.length).filter (fun i => keys[i]? == some k)
+
+/-- partition lemma in the form used by `groupRows` -/
+theorem tbl_groups_sum {α M : Type} [BEq α] [LawfulBEq α] [AddCommMonoid M] (keys : List α)
+    (g : Nat → M) :
+    ((distinctKeys keys).map (fun k => ((tbl_idx keys k).map g).sum)).sum =
+      ((List.range keys.length).map g).sum := by
+  have := tbl_partition_sum (fun i : Nat => keys[i]?) g ((distinctKeys keys).map some)
+    ((tbl_distinctKeys_nodup keys).map (Option.some_injective α)) (List.range keys.length)
+    (by
+      intro i hi
+      rw [List.mem_range] at hi
+      rw [List.mem_map]
+      exact ⟨keys[i], (tbl_mem_distinctKeys keys _).2 (List.getElem_mem hi),
+        (List.getElem?_eq_getElem hi).symm⟩)
+  rw [List.map_map] at this
+  exact this
+
+theorem tbl_groupRows_eq {α : Type} [BEq α] (keys : List α) (cols : List (List K)) (ws : List K) :
+    groupRows keys cols ws = (distinctKeys keys).map (fun k =>
+      ⟨k, (tbl_idx keys k).length, ((tbl_idx keys k).filterMap (fun i => ws[i]?)).sum,
+       cols.map (fun c => groupStat ((tbl_idx keys k).filterMap (fun i => c[i]?))
+         ((tbl_idx keys k).filterMap (fun i => ws[i]?))), tbl_idx keys k⟩) := rfl
+
+variable {K : Type} [Field K] [LinearOrder K] [IsStrictOrderedRing K]
+
+theorem tbl_pick_eq_map (l : List K) (idx : List Nat) (h : ∀ i ∈ idx, i < l.length) :
+    idx.filterMap (fun i => l[i]?) = idx.map (fun i => (l[i]?).getD 0) := by
+  induction idx with
+  | nil => rfl
+  | cons i t ih =>
+    have hi : i < l.length := h i (by simp)
+    rw [List.filterMap_cons, List.map_cons, ih (fun j hj => h j (List.mem_cons_of_mem _ hj))]
+    simp [List.getElem?_eq_getElem hi]
+
+theorem tbl_range_getD (l : List K) : (List.range l.length).map (fun i => (l[i]?).getD 0) = l := by
+  apply List.ext_getElem
+  · simp
+  · intro i h1 h2
+    simp [List.getElem?_eq_getElem h2]
+
+theorem tbl_zipWith_map {ι : Type} (f : K → K → K) (a b : ι → K) (idx : List ι) :
+    List.zipWith f (idx.map a) (idx.map b) = idx.map (fun i => f (a i) (b i)) := by
+  induction idx with
+  | nil => rfl
+  | cons i t ih => simp [ih]
+
+theorem tbl_mem_idx {α : Type} [BEq α] [LawfulBEq α] (keys : List α) (k : α) (i : Nat) :
+    i ∈ tbl_idx keys k ↔ keys[i]? = some k := by
+  unfold tbl_idx
+  rw [List.mem_filter, List.mem_range]
+  constructor
+  · rintro ⟨_, h⟩; exact eq_of_beq h
+  · intro h
+    refine ⟨?_, by rw [h]; exact beq_self_eq_true _⟩
+    by_contra hn
+    rw [List.getElem?_eq_none (by omega)] at h
+    cases h
+
+theorem tbl_idx_lt {α : Type} [BEq α] [LawfulBEq α] (keys : List α) (k : α) (i : Nat)
+    (h : i ∈ tbl_idx keys k) : i < keys.length := by
+  unfold tbl_idx at h
+  exact List.mem_range.1 (List.mem_filter.1 h).1
+
+theorem tbl_idx_ne_nil {α : Type} [BEq α] [LawfulBEq α] (keys : List α) (k : α) (h : k ∈ keys) :
+    tbl_idx keys k ≠ [] := by
+  obtain ⟨i, hi, rfl⟩ := List.getElem_of_mem h
+  exact List.ne_nil_of_mem ((tbl_mem_idx keys _ i).2 (List.getElem?_eq_getElem hi))
+
+/-- zip-with of the picked weights and values -/
+theorem tbl_pick_zipWith {α : Type} [BEq α] [LawfulBEq α] (keys : List α) (k : α) (f : K → K → K)
+    (ws col : List K) (hw : ws.length = keys.length) (hc : col.length = keys.length) :
+    List.zipWith f ((tbl_idx keys k).filterMap (fun i => ws[i]?)) ((tbl_idx keys k).filterMap (fun i => col[i]?)) =
+      (tbl_idx keys k).map (fun i => f ((ws[i]?).getD 0) ((col[i]?).getD 0)) := by
+  rw [tbl_pick_eq_map ws _ (fun i hi => hw ▸ tbl_idx_lt keys k i hi),
+    tbl_pick_eq_map col _ (fun i hi => hc ▸ tbl_idx_lt keys k i hi), tbl_zipWith_map]
+
+theorem tbl_zipWith_range (f : K → K → K) (ws col : List K) (n : Nat) (hw : ws.length = n)
+    (hc : col.length = n) :
+    (List.range n).map (fun i => f ((ws[i]?).getD 0) ((col[i]?).getD 0)) = List.zipWith f ws col := by
+  conv_rhs => rw [← tbl_range_getD ws, ← tbl_range_getD col, hw, hc, tbl_zipWith_map]
+
+/-- the group counts add up to the number of rows -/
+theorem tbl_counts_total {α : Type} [BEq α] [LawfulBEq α] (keys : List α) (cols : List (List K))
+    (ws : List K) : ((groupRows keys cols ws).map (·.count)).sum = keys.length := by
+  rw [tbl_groupRows_eq, List.map_map]
+  show ((distinctKeys keys).map (fun k => (tbl_idx keys k).length)).sum = keys.length
+  simp only [tbl_length_eq_sum (tbl_idx keys _)]
+  rw [tbl_groups_sum keys (fun _ => 1), ← tbl_length_eq_sum, List.length_range]
+
+/-- the group weights add up to the total weight -/
+theorem tbl_weights_total {α : Type} [BEq α] [LawfulBEq α] (keys : List α) (cols : List (List K))
+    (ws : List K) (hw : ws.length = keys.length) :
+    ((groupRows keys cols ws).map (·.weights)).sum = ws.sum := by
+  rw [tbl_groupRows_eq, List.map_map]
+  show ((distinctKeys keys).map (fun k => ((tbl_idx keys k).filterMap (fun i => ws[i]?)).sum)).sum = ws.sum
+  have : ∀ k, ((tbl_idx keys k).filterMap (fun i => ws[i]?)) = (tbl_idx keys k).map (fun i => (ws[i]?).getD 0) :=
+    fun k => tbl_pick_eq_map ws _ (fun i hi => hw ▸ tbl_idx_lt keys k i hi)
+  simp only [this]
+  rw [tbl_groups_sum keys (fun i => (ws[i]?).getD 0), ← hw, tbl_range_getD]
+
+theorem tbl_group_weight_pos {α : Type} [BEq α] [LawfulBEq α] (keys : List α) (ws : List K)
+    (hw : ws.length = keys.length) (hpos : ∀ w ∈ ws, 0 < w) (k : α) (hk : k ∈ keys) :
+    0 < ((tbl_idx keys k).filterMap (fun i => ws[i]?)).sum := by
+  apply List.sum_pos
+  · intro x hx
+    rw [List.mem_filterMap] at hx
+    obtain ⟨i, _, hi⟩ := hx
+    exact hpos x (List.mem_of_getElem? hi)
+  · rw [tbl_pick_eq_map ws _ (fun i hi => hw ▸ tbl_idx_lt keys k i hi)]
+    intro h
+    exact tbl_idx_ne_nil keys k hk (List.map_eq_nil_iff.1 h)
+
+theorem tbl_groupStat_mean (vals ws : List K) :
+    (groupStat vals ws).mean = (List.zipWith (· * ·) ws vals).sum / ws.sum := rfl
+
+/-- `Σ_g W_g · mean_g = Σ_i w_i · v_i` for the value column `j` -/
+theorem tbl_recombine {α : Type} [BEq α] [LawfulBEq α] (keys : List α) (cols : List (List K))
+    (ws : List K) (j : Nat) (col : List K) (hj : cols[j]? = some col)
+    (hw : ws.length = keys.length) (hc : col.length = keys.length)
+    (hne : ∀ g ∈ groupRows keys cols ws, g.weights ≠ 0) :
+    ((groupRows keys cols ws).map (fun g => g.weights * ((g.stats[j]?).map (·.mean)).getD 0)).sum =
+      (List.zipWith (· * ·) ws col).sum := by
+  have hne' : ∀ k ∈ distinctKeys keys, ((tbl_idx keys k).filterMap (fun i => ws[i]?)).sum ≠ 0 := by
+    intro k hk
+    apply hne ⟨k, (tbl_idx keys k).length, ((tbl_idx keys k).filterMap (fun i => ws[i]?)).sum,
+       cols.map (fun c => groupStat ((tbl_idx keys k).filterMap (fun i => c[i]?))
+         ((tbl_idx keys k).filterMap (fun i => ws[i]?))), tbl_idx keys k⟩
+    rw [tbl_groupRows_eq]
+    exact List.mem_map.2 ⟨k, hk, rfl⟩
+  rw [tbl_groupRows_eq, List.map_map]
+  have hterm : ∀ k ∈ distinctKeys keys,
+      ((fun g : GroupRow K α => g.weights * ((g.stats[j]?).map (·.mean)).getD 0) ∘ (fun k =>
+      (⟨k, (tbl_idx keys k).length, ((tbl_idx keys k).filterMap (fun i => ws[i]?)).sum,
+       cols.map (fun c => groupStat ((tbl_idx keys k).filterMap (fun i => c[i]?))
+         ((tbl_idx keys k).filterMap (fun i => ws[i]?))), tbl_idx keys k⟩ : GroupRow K α))) k =
+      ((tbl_idx keys k).map (fun i => (ws[i]?).getD 0 * (col[i]?).getD 0)).sum := by
+    intro k hk
+    simp only [Function.comp, List.getElem?_map, hj, Option.map_some, Option.getD_some,
+      tbl_groupStat_mean]
+    rw [mul_div_cancel₀ _ (hne' k hk), tbl_pick_zipWith keys k (· * ·) ws col hw hc]
+  rw [List.map_congr_left hterm, tbl_groups_sum keys (fun i => (ws[i]?).getD 0 * (col[i]?).getD 0),
+    tbl_zipWith_range (· * ·) ws col keys.length hw hc]
+
+variable {K : Type} [Field K] [LinearOrder K] [IsStrictOrderedRing K]
+
+instance tbl_lawfulBEqKey : LawfulBEq Key where
+  eq_of_beq := by
+    intro a b h
+    cases a <;> cases b <;> simp [BEq.beq, instBEqKey.beq] at h
+    · rfl
+    · have : (_ : Nat) = _ := h
+      simp_all
+    · simp_all
+  rfl := by
+    intro a
+    cases a <;> simp [BEq.beq, instBEqKey.beq]
+/-! ### 8. `truncateGroups`, `groupedTable` -/
+
+theorem tbl_truncate_perm {α : Type} (isNull : α → Bool) (nBins : Nat) (gs : List (GroupRow K α))
+    (h : gs.length ≤ nBins) : (truncateGroups isNull nBins gs).Perm gs := by
+  unfold truncateGroups
+  simp only []
+  rw [List.take_of_length_le (by rw [List.length_mergeSort]; exact h)]
+  exact List.mergeSort_perm _ _
+
+theorem tbl_groupRows_length {α : Type} [BEq α] (keys : List α) (cols : List (List K)) (ws : List K) :
+    (groupRows keys cols ws).length = (distinctKeys keys).length := by
+  rw [tbl_groupRows_eq, List.length_map]
+
+theorem tbl_groupRows_keys {α : Type} [BEq α] (keys : List α) (cols : List (List K)) (ws : List K) :
+    (groupRows keys cols ws).map (·.key) = distinctKeys keys := by
+  rw [tbl_groupRows_eq, List.map_map]
+  exact List.map_id _
+
+theorem tbl_distinctKeys_length_le {α : Type} [BEq α] [LawfulBEq α] (keys L : List α) (h : keys ⊆ L) :
+    (distinctKeys keys).length ≤ L.length :=
+  ((tbl_distinctKeys_nodup keys).subperm
+    (fun x hx => h ((tbl_mem_distinctKeys keys x).1 hx))).length_le
+
+/-- key of a numeric bin label -/
+def tbl_numKey (o : Option Nat) : Key := match o with | none => Key.null | some i => Key.num i
+/-- key of a string label -/
+def tbl_strKey (o : Option String) : Key := match o with | none => Key.null | some s => Key.str s
+
+/-- numeric binning never yields more groups than the returned `n_bins` -/
+theorem tbl_num_groups_le (m : BinMethod) (nBins : Nat) (given : List K) (feature : List (Cell K))
+    (cols : List (List K)) (ws : List K) :
+    (groupRows ((binNumeric m nBins given feature).bins.map tbl_numKey) cols ws).length ≤
+      (binNumeric m nBins given feature).nBins := by
+  rw [tbl_groupRows_length]
+  refine le_trans (tbl_distinctKeys_length_le _ ((tbl_binUniverse m nBins given feature).map tbl_numKey)
+    (List.map_subset _ (tbl_bins_subset m nBins given feature))) ?_
+  rw [List.length_map]
+  exact tbl_binUniverse_length m nBins given feature
+
+/-- string binning never yields more groups than the returned `n_bins` -/
+theorem tbl_str_groups_le (enumOrder : Option (List String)) (nBins : Nat) (feature : List (Option String))
+    (cols : List (List K)) (ws : List K) :
+    (groupRows ((binString enumOrder nBins feature).bins.map tbl_strKey) cols ws).length ≤
+      (binString enumOrder nBins feature).nBins := by
+  rw [tbl_groupRows_length]
+  refine le_trans (tbl_distinctKeys_length_le _ ((tbl_sUniverse enumOrder nBins feature).map tbl_strKey)
+    (List.map_subset _ (tbl_sbins_subset enumOrder nBins feature))) ?_
+  rw [List.length_map]
+  exact tbl_sUniverse_length enumOrder nBins feature
+
+/-- the output row built from a group -/
+def tbl_outRow (feature : List (Cell K)) (rowEdges : List (Option (Cell K × Cell K)))
+    (g : GroupRow K Key) : OutRow K :=
+  ⟨g.key, cellMean (g.idx.filterMap (fun i => feature[i]?)), g.count, g.weights, g.stats,
+    cellVar (g.idx.filterMap (fun i => feature[i]?)),
+    (g.idx.head?.bind (fun i => rowEdges[i]?)).join⟩
+
+theorem tbl_groupedTable_eq (keys : List Key) (feature : List (Cell K))
+    (rowEdges : List (Option (Cell K × Cell K))) (cols : List (List K)) (ws : List K) (nBins : Nat)
+    (enumOrder : Option (List String)) (pooled : Option String) :
+    groupedTable keys feature rowEdges cols ws nBins enumOrder pooled =
+      ((truncateGroups Key.isNull nBins (groupRows keys cols ws)).map (tbl_outRow feature rowEdges)).mergeSort
+        (keyLe enumOrder pooled) := rfl
+
+/-- without truncation the table is a permutation of the groups' rows -/
+theorem tbl_groupedTable_perm (keys : List Key) (feature : List (Cell K))
+    (rowEdges : List (Option (Cell K × Cell K))) (cols : List (List K)) (ws : List K) (nBins : Nat)
+    (enumOrder : Option (List String)) (pooled : Option String)
+    (h : (groupRows keys cols ws).length ≤ nBins) :
+    (groupedTable keys feature rowEdges cols ws nBins enumOrder pooled).Perm
+      ((groupRows keys cols ws).map (tbl_outRow feature rowEdges)) := by
+  rw [tbl_groupedTable_eq]
+  exact (List.mergeSort_perm _ _).trans ((tbl_truncate_perm _ _ _ h).map _)
+
+/-- every row of the table comes from a group (always, also with truncation) -/
+theorem tbl_groupedTable_mem (keys : List Key) (feature : List (Cell K))
+    (rowEdges : List (Option (Cell K × Cell K))) (cols : List (List K)) (ws : List K) (nBins : Nat)
+    (enumOrder : Option (List String)) (pooled : Option String) (r : OutRow K)
+    (hr : r ∈ groupedTable keys feature rowEdges cols ws nBins enumOrder pooled) :
+    ∃ g ∈ groupRows keys cols ws, r = tbl_outRow feature rowEdges g := by
+  rw [tbl_groupedTable_eq, List.mem_mergeSort, List.mem_map] at hr
+  obtain ⟨g, hg, rfl⟩ := hr
+  refine ⟨g, ?_, rfl⟩
+  unfold truncateGroups at hg
+  exact List.mem_mergeSort.1 (List.mem_of_mem_take hg)
+
+variable {K : Type} [Field K] [LinearOrder K] [IsStrictOrderedRing K]
+
+/-! ### 9. invariance under row permutations -/
+
+theorem tbl_zipWith_map' {ι : Type} (f : K → K → K) (a b : ι → K) (idx : List ι) :
+    List.zipWith f (idx.map a) (idx.map b) = idx.map (fun i => f (a i) (b i)) := by
+  induction idx with
+  | nil => rfl
+  | cons i t ih => simp [ih]
+
+/-- `groupStat` of a list of (weight, value) records does not depend on the order of the records -/
+theorem tbl_groupStat_perm {ι : Type} (a b : ι → K) (l l' : List ι) (h : l.Perm l') :
+    groupStat (l.map b) (l.map a) = groupStat (l'.map b) (l'.map a) := by
+  have h1 : (l.map a).sum = (l'.map a).sum := (h.map a).sum_eq
+  have h2 : (l.map (fun i => a i * b i)).sum = (l'.map (fun i => a i * b i)).sum := (h.map _).sum_eq
+  have h3 : ∀ m : K, (l.map (fun i => a i * ((b i - m) * (b i - m)))).sum =
+      (l'.map (fun i => a i * ((b i - m) * (b i - m)))).sum := fun m => (h.map _).sum_eq
+  have h4 : l.length = l'.length := h.length_eq
+  unfold groupStat
+  simp only [tbl_zipWith_map', List.length_map, h1, h2, h3, h4]
+
+theorem tbl_filterMap_range {β : Type} (l : List β) :
+    (List.range l.length).filterMap (fun i => l[i]?) = l := by
+  induction l using List.reverseRecOn with
+  | nil => rfl
+  | append_singleton t a ih =>
+    rw [List.length_append, List.length_singleton, List.range_succ, List.filterMap_append]
+    have h1 : (List.range t.length).filterMap (fun i => (t ++ [a])[i]?) =
+        (List.range t.length).filterMap (fun i => t[i]?) := by
+      apply List.filterMap_congr
+      intro i hi
+      rw [List.mem_range] at hi
+      rw [List.getElem?_append_left hi]
+    rw [h1, ih]
+    simp
+
+/-- the picked values of group `k`, via the zipped row records -/
+theorem tbl_pick_eq_filter {α β : Type} [BEq α] [LawfulBEq α] (keys : List α) (vs : List β)
+    (h : vs.length = keys.length) (k : α) :
+    (tbl_idx keys k).filterMap (fun i => vs[i]?) =
+      ((List.zip keys vs).filter (fun r => r.1 == k)).map (·.2) := by
+  have hz : (List.zip keys vs).length = keys.length := by rw [List.length_zip, h, Nat.min_self]
+  conv_rhs => rw [← tbl_filterMap_range (List.zip keys vs), hz]
+  unfold tbl_idx
+  rw [List.filterMap_filter, List.filter_filterMap, List.map_filterMap]
+  apply List.filterMap_congr
+  intro i hi
+  rw [List.mem_range] at hi
+  have hi' : i < vs.length := by omega
+  simp only [List.getElem?_eq_getElem hi, List.getElem?_eq_getElem hi',
+    List.zip_eq_zipWith, List.getElem?_zipWith]
+  by_cases hk : keys[i] = k
+  · simp [hk]
+  · simp [hk]
+
+theorem tbl_zip_getElem? {β γ : Type} (a : List β) (b : List γ) (h : a.length = b.length) (i : Nat) :
+    ((List.zip a b)[i]?).map (·.1) = a[i]? ∧ ((List.zip a b)[i]?).map (·.2) = b[i]? := by
+  by_cases hi : i < a.length
+  · have hi' : i < b.length := by omega
+    simp [List.zip_eq_zipWith, List.getElem?_zipWith, List.getElem?_eq_getElem hi,
+      List.getElem?_eq_getElem hi']
+  · have hi' : ¬ i < b.length := by omega
+    simp [List.zip_eq_zipWith, List.getElem?_zipWith, List.getElem?_eq_none (not_lt.1 hi),
+      List.getElem?_eq_none (not_lt.1 hi')]
+
+/-- weights and values of group `k` read off the zipped row records `(key, weight, value)` -/
+theorem tbl_pick3 {α : Type} [BEq α] [LawfulBEq α] (keys : List α) (ws c : List K)
+    (hw : ws.length = keys.length) (hc : c.length = keys.length) (k : α) :
+    (tbl_idx keys k).filterMap (fun i => ws[i]?) =
+      ((List.zip keys (List.zip ws c)).filter (fun r => r.1 == k)).map (·.2.1) ∧
+    (tbl_idx keys k).filterMap (fun i => c[i]?) =
+      ((List.zip keys (List.zip ws c)).filter (fun r => r.1 == k)).map (·.2.2) := by
+  have hz : (List.zip ws c).length = keys.length := by rw [List.length_zip, hw, hc, Nat.min_self]
+  have key := tbl_pick_eq_filter keys (List.zip ws c) hz k
+  have hwc : ws.length = c.length := by omega
+  constructor
+  · have : ((List.zip keys (List.zip ws c)).filter (fun r => r.1 == k)).map (·.2.1) =
+        (((List.zip keys (List.zip ws c)).filter (fun r => r.1 == k)).map (·.2)).map (·.1) := by
+      rw [List.map_map]; rfl
+    rw [this, ← key, List.map_filterMap]
+    apply List.filterMap_congr
+    intro i _
+    exact ((tbl_zip_getElem? ws c hwc i).1).symm
+  · have : ((List.zip keys (List.zip ws c)).filter (fun r => r.1 == k)).map (·.2.2) =
+        (((List.zip keys (List.zip ws c)).filter (fun r => r.1 == k)).map (·.2)).map (·.2) := by
+      rw [List.map_map]; rfl
+    rw [this, ← key, List.map_filterMap]
+    apply List.filterMap_congr
+    intro i _
+    exact ((tbl_zip_getElem? ws c hwc i).2).symm
+
+/-- count, weight and column statistics of group `k` are invariant under a permutation of the
+row records `(key, weight, value)` -/
+theorem tbl_group_perm {α : Type} [BEq α] [LawfulBEq α] (keys keys' : List α) (ws ws' c c' : List K)
+    (hw : ws.length = keys.length) (hc : c.length = keys.length)
+    (hw' : ws'.length = keys'.length) (hc' : c'.length = keys'.length)
+    (hperm : (List.zip keys (List.zip ws c)).Perm (List.zip keys' (List.zip ws' c'))) (k : α) :
+    (tbl_idx keys k).length = (tbl_idx keys' k).length ∧
+    ((tbl_idx keys k).filterMap (fun i => ws[i]?)).sum = ((tbl_idx keys' k).filterMap (fun i => ws'[i]?)).sum ∧
+    groupStat ((tbl_idx keys k).filterMap (fun i => c[i]?)) ((tbl_idx keys k).filterMap (fun i => ws[i]?)) =
+      groupStat ((tbl_idx keys' k).filterMap (fun i => c'[i]?)) ((tbl_idx keys' k).filterMap (fun i => ws'[i]?)) := by
+  obtain ⟨p1, p2⟩ := tbl_pick3 keys ws c hw hc k
+  obtain ⟨q1, q2⟩ := tbl_pick3 keys' ws' c' hw' hc' k
+  have hf := hperm.filter (fun r => r.1 == k)
+  refine ⟨?_, ?_, ?_⟩
+  · have e1 : (tbl_idx keys k).length = ((tbl_idx keys k).filterMap (fun i => ws[i]?)).length := by
+      rw [tbl_pick_eq_map ws _ (fun i hi => hw ▸ tbl_idx_lt keys k i hi), List.length_map]
+    have e2 : (tbl_idx keys' k).length = ((tbl_idx keys' k).filterMap (fun i => ws'[i]?)).length := by
+      rw [tbl_pick_eq_map ws' _ (fun i hi => hw' ▸ tbl_idx_lt keys' k i hi), List.length_map]
+    rw [e1, e2, p1, q1, List.length_map, List.length_map]
+    exact hf.length_eq
+  · rw [p1, q1]
+    exact (hf.map _).sum_eq
+  · rw [p1, p2, q1, q2]
+    exact tbl_groupStat_perm (fun r : α × K × K => r.2.1) (fun r => r.2.2) _ _ hf
+
 end MD
